@@ -307,6 +307,46 @@ func genC13(r *Rng, tier string, idx int) *Plan {
 	}
 	id := 0
 	nid := func() int { id++; return id }
+	if idx%4 == 3 {
+		// One client registration (client id, secret) at one provider, used by two chains: each has a redirect URI and
+		// scopes of its own, everything that depends only on the provider and the client id is equal. Every login redirect
+		// must carry the values of the filter that sent it.
+		p.Mode = "shared-client-registration"
+		cid, csec, disc, fetch, iv := f.ClientID, f.ClientSecret, f.Discovery, f.JWKSFetch, f.JWKSInterval
+		cq, cp := f.CallbackQuery, f.CallbackPath
+		saved := *is
+		p.Spec = genSpec(r, genOpts{Filters: 2, AllowRedis: true, Logout: 0})
+		p.Spec.IdPs[0] = saved
+		for i := range p.Spec.Filters {
+			g := &p.Spec.Filters[i]
+			g.IdP, g.ClientID, g.ClientSecret, g.Discovery, g.JWKSFetch, g.JWKSInterval = 0, cid, csec, disc, fetch, iv
+			if g.Logout != nil && g.Logout.RedirectURI == "" && !disc {
+				g.Logout.RedirectURI = "https://idp-a.test/ended?x=1"
+			}
+		}
+		p.Spec.Filters[0].CallbackQuery, p.Spec.Filters[0].CallbackPath = cq, cp
+		p.Spec.Filters[1].Scopes = [][]string{{"openid", "groups"}, {"profile", "b only"}, nil, {"offline_access"}}[r.Intn(4)]
+		if r.Bool() {
+			// same host, told apart by a tenant header: the redirect URIs differ in the path only
+			p.Spec.Filters[1].AppHost = p.Spec.Filters[0].AppHost
+			p.Spec.Filters[0].Match = &MatchSpec{Header: "X-Tenant", Prefix: "tenant-a"}
+			p.Spec.Filters[1].Match = &MatchSpec{Header: "X-Tenant", Prefix: "tenant-b"}
+			p.Spec.Filters[1].CallbackPath = p.Spec.Filters[0].CallbackPath + "/b"
+			if p.Spec.Filters[1].CookiePrefix == p.Spec.Filters[0].CookiePrefix {
+				p.Spec.Filters[1].CookiePrefix = "tb"
+			}
+		}
+		n := r.Range(2, 5)
+		first := r.Intn(2)
+		for i := 0; i < n; i++ {
+			fi := (first + i) % 2
+			p.Ops = append(p.Ops, Op{ID: nid(), Kind: "nav", B: fi, F: fi, Path: genTarget(r)})
+			if r.Chance(0.3) {
+				p.Ops = append(p.Ops, Op{ID: nid(), Kind: "adv", D: 4000}, Op{ID: nid(), Kind: "nav", B: fi, F: fi, Path: genTarget(r)})
+			}
+		}
+		return p
+	}
 	n := r.Range(1, 4)
 	for i := 0; i < n; i++ {
 		t := genTarget(r)
